@@ -22,7 +22,8 @@
 (*           the signed map                                                *)
 (*   pl      field -> class, classes: "ok" (as sealed), "ok2" (another     *)
 (*           valid value), "absent", "null", "wrongkind", "bad" (invalid   *)
-(*           syntax), "short" / "empty" (nonce), "oob" (integer 2^53),     *)
+(*           syntax), "short" / "empty" (nonce), "oob" / "oobneg" (the     *)
+(*           integers 2^53 / -2^53, just outside the safe range),          *)
 (*           "u64" (integer 2^64-5 as CBOR unsigned); pl.iss in            *)
 (*           {"H","M","absent","wrongkind","bad"}; pl.zzz = "present" is   *)
 (*           an unknown field                                              *)
@@ -57,12 +58,12 @@ Classes(t, f) ==
     [] f = "zzz" -> {"absent", "present"}
     [] f \in DidFields -> {"ok", "ok2", "absent", "null", "wrongkind", "bad"}
     [] f = "cmd" -> {"ok", "ok2", "absent", "wrongkind", "bad"}
-    [] f = "pol" -> {"ok", "ok2", "absent", "wrongkind", "bad", "oob", "u64"}
-    [] f = "args" -> {"ok", "ok2", "absent", "wrongkind", "oob", "u64"}
+    [] f = "pol" -> {"ok", "ok2", "absent", "wrongkind", "bad", "oob", "oobneg", "u64"}
+    [] f = "args" -> {"ok", "ok2", "absent", "wrongkind", "oob", "oobneg", "u64"}
     [] f = "prf" -> {"ok", "ok2", "absent", "wrongkind"}
     [] f = "nonce" -> {"ok", "ok2", "absent", "wrongkind", "short", "empty"}
     [] f = "meta" -> {"ok", "ok2", "absent", "wrongkind"}
-    [] f \in IntFields -> {"ok", "ok2", "absent", "null", "wrongkind", "oob", "u64"}
+    [] f \in IntFields -> {"ok", "ok2", "absent", "null", "wrongkind", "oob", "oobneg", "u64"}
     [] f = "cause" -> {"ok", "absent", "wrongkind"}
 
 SealedPl(t) == [f \in Fields(t) |-> IF f = "iss" THEN "H" ELSE IF f = "zzz" THEN "absent" ELSE "ok"]
@@ -123,7 +124,7 @@ Decode(w, decoder) ==
   ELSE IF w.hdr # AlgOf(pl.iss) /\ "HeaderNotChecked" \notin Deviations THEN reject("header")
   ELSE IF ~(w.sig.q = "valid" /\ w.sig.by = pl.iss /\ w.sig.over = Content(w))
           /\ ~(w.sig.q = "empty" /\ "EmptySigSkipsVerify" \in Deviations) THEN reject("verify")
-  ELSE IF \E f \in Fields(t) : pl[f] \in {"bad", "short", "empty", "oob"} THEN reject("model")
+  ELSE IF \E f \in Fields(t) : pl[f] \in {"bad", "short", "empty", "oob", "oobneg"} THEN reject("model")
   ELSE IF t = "inv" /\ pl.nonce = "absent" THEN reject("model")
   ELSE IF \E f \in Fields(t) : pl[f] = "u64" /\ ~(f \in IntFields /\ "TimeU64Wraps" \in Deviations) THEN reject("model")
   ELSE [ok |-> TRUE, stage |-> "accepted", type |-> t]
